@@ -154,10 +154,16 @@ def install(I, poll_budget=1):
         h = I.hooks.get('late_arrival')
         if h:
             h(I, st, o)     # a non-blocking read may see what another thread enqueued since the last look (sequential port models only)
+        live = bool(h) and o.oid in st.objs and z3.is_false(z3.simplify(st.objs[o.oid]['closed']))
         res = I.shared_op(st, o, 'try_recv', objects.chan_recv(), {'has': 'bool', 'val': objects.ID_BITS, 'closed': 'bool'}, label='%s.try_recv' % name)
         outs = []
         for s2, has in branch(I, st, res['has']):
-            if has:
+            if has and live:
+                # a read of a port that is still open: the item is a real input (same materialisation as a receive), not a flushed left-over
+                s2.emit('RECV', o.oid, res['val'])
+                for s3, v in chan_value(I, s2, o, res['val']):
+                    outs.append(Outcome(s3, 'ret', ok(v)))
+            elif has:
                 s2.emit('FLUSHED', o.oid, res['val'])
                 outs.append(Outcome(s2, 'ret', ok(Opaque('received', info=res['val']))))
             else:
@@ -184,9 +190,15 @@ def install(I, poll_budget=1):
         h = I.hooks.get('late_arrival')
         if h:
             h(I, st, o)
+        live = bool(h) and o.oid in st.objs and z3.is_false(z3.simplify(st.objs[o.oid]['rxclosed']))
         res = I.shared_op(st, o, 'poll', objects.oneshot_poll(), {'ready_val': 'bool', 'ready_closed': 'bool', 'val': objects.ID_BITS}, label='%s.try_recv' % o.oid)
         outs = []
         for s2, has in branch(I, st, res['ready_val']):
+            if has and live:
+                s2.emit('RECV', o.oid, res['val'])
+                for s3, v in chan_value(I, s2, o, res['val']):
+                    outs.append(Outcome(s3, 'ret', ok(v)))
+                continue
             if has:
                 s2.emit('FLUSHED', o.oid, res['val'])
             outs.append(Outcome(s2, 'ret', ok(Opaque('received', info=res['val'])) if has else err(Enum('TryRecvError', 'Empty', 0, ()))))
